@@ -229,6 +229,32 @@ Section Machine.
 
   Definition run (h : list ev) : st := fold_left step h init.
 
+  (* Hypotheses about stop windows (finding F2).  While the collector is stopped:
+     alloc_ok  — no managed/root allocation (it would never be registered);
+     stop_ok   — in addition no `del` reaches the collector: no del/del_root, and del_raw only
+                 of objects that own nothing (a Box's destructor would issue a `del`). *)
+  Definition alloc_ok (s : st) (e : ev) : bool :=
+    running s || match e with
+                 | ENew KRaw _ _ _ _ => true
+                 | ENew _ _ _ _ _ => false
+                 | _ => true
+                 end.
+  Definition stop_ok (s : st) (e : ev) : bool :=
+    running s || match e with
+                 | ENew KRaw _ _ _ _ => true
+                 | ENew _ _ _ _ _ => false
+                 | EDel KRaw o => match owned s o with None => true | Some _ => false end
+                 | EDel _ _ => false
+                 | _ => true
+                 end.
+  Fixpoint all_from (c : st -> ev -> bool) (s : st) (h : list ev) : bool :=
+    match h with
+    | [] => true
+    | e :: t => c s e && all_from c (step s e) t
+    end.
+  Definition no_alloc_in_stop_window (h : list ev) : bool := all_from alloc_ok init h.
+  Definition no_alloc_or_del_in_stop_window (h : list ev) : bool := all_from stop_ok init h.
+
   (* does this event run GC_Sweep (the driver needs to know whether an observed order is consumed) *)
   Definition will_sweep (s : st) (e : ev) : bool :=
     if torn s then false else
